@@ -133,7 +133,7 @@ Lemma events_ok_sound evs : forall imp imp',
 Proof.
   induction evs as [|e evs IH]; intros imp imp' H; cbn [events_ok_b] in H.
   - injection H as <-. cbn. repeat split; auto; try constructor; try tauto.
-  - destruct e as [s|s|s|s|s|s]; try discriminate;
+  - destruct e as [s|s|s|s|s|s|s]; try discriminate;
       try (destruct (IH _ _ H) as (A & B & C & D); cbn [imports_of flat_map app] in *;
            split; [constructor; [exact I|exact A]|]; split; [exact B|]; split; [exact C|exact D]).
     destruct (existsb (N.eqb s) imp) eqn:X; [discriminate|].
@@ -218,7 +218,7 @@ Proof.
   - exists [], st, imported. split; [reflexivity|]. split; [reflexivity|]. split; [reflexivity|].
     split; [constructor|]. split; [reflexivity|exact I].
   - inversion W as [|? ? Ws Wr]; subst. cbn [run_with].
-    destruct s as [h|h|n|rs|who h best]; cbn [do_step_with].
+    destruct s as [h|h|n|rs|who h best|n best target]; cbn [do_step_with].
     + assert (I' : inv_state (mkps (p_env st) (new_incomplete (p_un st) h) (p_queue st)) imported).
       { destruct I as [IU IK]. split; [now apply new_incomplete_ok|exact IK]. }
       destruct (IH _ _ I' Wr) as (outs & stf & imp' & E & L & H & NE & EA & IF). rewrite E.
@@ -254,6 +254,12 @@ Proof.
       cbn [observe]. rewrite history_ok_skip by exact Logic.I.
       split; [exact H|]. split; [constructor; [exact ER|exact NE]|]. split; [|exact IF].
       cbn [all_events flat_map]. fold (all_events outs). rewrite EV. exact EA.
+    + assert (I' : inv_state (mkps (p_env st) (p_un st) (skipn (N.to_nat n) (p_queue st))) imported)
+        by (destruct I as [IU IK]; split; assumption).
+      destruct (IH _ _ I' Wr) as (outs & stf & imp' & E & L & H & NE & EA & IF). rewrite E.
+      exists (None :: outs), stf, imp'. split; [reflexivity|]. split; [cbn [length]; now rewrite L|].
+      cbn [observe]. rewrite history_ok_skip by exact Logic.I.
+      split; [exact H|]. split; [constructor; [exact Logic.I|exact NE]|]. split; [exact EA|exact IF].
 Qed.
 
 Lemma run_fixed_safe bad steps : forall st imported,
